@@ -23,6 +23,37 @@ def to_ts(t):
     return datetime(*t)
 
 
+def label_free(norm):
+    """The text the real `_ctparse` hands to `_match_regex` for the pre-processed text `norm` -- observed, not
+    re-implemented: the label removal is inline code of `_ctparse`, so the harness runs `_ctparse` with a recording
+    matcher instead of copying the statements (a copy goes stale with every repair there, D31)."""
+    _init()
+    C = sys.modules["ctparse.ctparse"]
+    seen = []
+    real = C._match_regex
+
+    def rec(txt, *a, **k):
+        seen.append(txt)
+        return []
+    C._match_regex = rec
+    try:
+        from ctparse.scorer import DummyScorer
+        try:
+            for _ in C._ctparse(norm, datetime(2020, 1, 1), 0, 1.0, 0, DummyScorer()):
+                pass
+        except TypeError:
+            # the internal signature changed: go through the public generator (it normalises `norm` once more, which
+            # is the identity on normalised text)
+            del seen[:]
+            for _ in C.ctparse_gen(norm, ts=datetime(2020, 1, 1), timeout=0, max_stack_depth=0, scorer=DummyScorer()):
+                pass
+    finally:
+        C._match_regex = real
+    if not seen:
+        raise RuntimeError("_ctparse never called _match_regex on %r" % (norm,))
+    return seen[0]
+
+
 def eval_case(case):
     """case = (text, ts tuple | None, opts dict) -> record"""
     _init()
